@@ -212,6 +212,174 @@ pub mod led {
 }
 
 // ---------------------------------------------------------------------------------------------
+// P3: generic contract, instantiated at u32
+
+pub mod bag {
+    use cw_storage_plus::Item;
+    use sylvia::ctx::{ExecCtx, InstantiateCtx, MigrateCtx, QueryCtx, SudoCtx};
+    use sylvia::cw_std::{Response, StdError, StdResult};
+
+    pub struct Bag<T> {
+        pub items: Item<Vec<T>>,
+    }
+
+    #[sylvia::contract]
+    impl<T> Bag<T>
+    where
+        T: sylvia::serde::Serialize + sylvia::serde::de::DeserializeOwned + std::fmt::Debug + Clone + PartialEq + sylvia::schemars::JsonSchema + 'static,
+    {
+        pub const fn new() -> Self {
+            Self { items: Item::new("items") }
+        }
+
+        #[sv::msg(instantiate)]
+        fn instantiate(&self, ctx: InstantiateCtx, first: T, copies: u32) -> StdResult<Response> {
+            if copies == 99 {
+                return Err(StdError::generic_err("too many copies"));
+            }
+            self.items.save(ctx.deps.storage, &vec![first; copies as usize])?;
+            Ok(Response::new().add_attribute("copies", copies.to_string()))
+        }
+
+        #[sv::msg(exec)]
+        fn push(&self, ctx: ExecCtx, item: T, times: u32) -> StdResult<Response> {
+            if times == 13 {
+                return Err(StdError::generic_err("unlucky push"));
+            }
+            let mut v = self.items.load(ctx.deps.storage)?;
+            for _ in 0..times {
+                v.push(item.clone());
+            }
+            self.items.save(ctx.deps.storage, &v)?;
+            Ok(Response::new().add_attribute("len", v.len().to_string()).set_data(vec![v.len() as u8]))
+        }
+
+        #[sv::msg(exec)]
+        fn clear(&self, ctx: ExecCtx) -> StdResult<Response> {
+            self.items.save(ctx.deps.storage, &vec![])?;
+            Ok(Response::new())
+        }
+
+        #[sv::msg(query)]
+        fn len(&self, ctx: QueryCtx) -> StdResult<u32> {
+            Ok(self.items.load(ctx.deps.storage)?.len() as u32)
+        }
+
+        #[sv::msg(query)]
+        fn count_of(&self, ctx: QueryCtx, item: T) -> StdResult<u32> {
+            Ok(self.items.load(ctx.deps.storage)?.iter().filter(|x| **x == item).count() as u32)
+        }
+
+        #[sv::msg(sudo)]
+        fn truncate(&self, ctx: SudoCtx, to: u32) -> StdResult<Response> {
+            if to == 13 {
+                return Err(StdError::generic_err("unlucky truncate"));
+            }
+            let mut v = self.items.load(ctx.deps.storage)?;
+            v.truncate(to as usize);
+            self.items.save(ctx.deps.storage, &v)?;
+            Ok(Response::new())
+        }
+
+        #[sv::msg(migrate)]
+        fn migrate(&self, ctx: MigrateCtx, fill: T) -> StdResult<Response> {
+            let v = self.items.load(ctx.deps.storage)?;
+            self.items.save(ctx.deps.storage, &vec![fill; v.len()])?;
+            Ok(Response::new().add_attribute("refilled", v.len().to_string()))
+        }
+    }
+}
+
+// ---------------------------------------------------------------------------------------------
+// P4: contract whose execute entry point is overridden (multitest must go through the override)
+
+pub mod ovr {
+    use cw_storage_plus::Item;
+    use sylvia::ctx::{ExecCtx, InstantiateCtx, QueryCtx, SudoCtx};
+    use sylvia::cw_std::{DepsMut, Env, MessageInfo, Response, StdError, StdResult};
+
+    #[derive(sylvia::serde::Serialize, sylvia::serde::Deserialize, Clone, Debug, PartialEq, sylvia::schemars::JsonSchema)]
+    #[serde(rename_all = "snake_case", crate = "sylvia::serde")]
+    #[schemars(crate = "sylvia::schemars")]
+    pub enum OvrExec {
+        Add { n: u32 },
+        Clear {},
+    }
+
+    /// Hand-written execute entry point: doubles what `add` would add and refuses 13.
+    pub fn custom_exec(deps: DepsMut, _env: Env, info: MessageInfo, msg: OvrExec) -> StdResult<Response> {
+        let total: Item<u32> = Item::new("total");
+        match msg {
+            OvrExec::Add { n } => {
+                if n == 13 {
+                    return Err(StdError::generic_err("override refuses 13"));
+                }
+                let t = total.load(deps.storage)? + 2 * n;
+                total.save(deps.storage, &t)?;
+                Ok(Response::new().add_attribute("override", "add").add_attribute("by", info.sender).set_data(vec![t as u8]))
+            }
+            OvrExec::Clear {} => {
+                total.save(deps.storage, &0)?;
+                Ok(Response::new().add_attribute("override", "clear"))
+            }
+        }
+    }
+
+    pub struct Ovr {
+        pub total: Item<u32>,
+    }
+
+    #[sylvia::contract]
+    #[sv::override_entry_point(exec=crate::history_progs::ovr::custom_exec(crate::history_progs::ovr::OvrExec))]
+    impl Ovr {
+        pub const fn new() -> Self {
+            Self { total: Item::new("total") }
+        }
+
+        #[sv::msg(instantiate)]
+        fn instantiate(&self, ctx: InstantiateCtx, start: u32) -> StdResult<Response> {
+            if start == 99 {
+                return Err(StdError::generic_err("no"));
+            }
+            self.total.save(ctx.deps.storage, &start)?;
+            Ok(Response::new())
+        }
+
+        #[sv::msg(exec)]
+        fn add(&self, ctx: ExecCtx, n: u32) -> StdResult<Response> {
+            let t = self.total.load(ctx.deps.storage)? + n;
+            self.total.save(ctx.deps.storage, &t)?;
+            Ok(Response::new().add_attribute("plain", "add"))
+        }
+
+        #[sv::msg(exec)]
+        fn clear(&self, ctx: ExecCtx) -> StdResult<Response> {
+            self.total.save(ctx.deps.storage, &0)?;
+            Ok(Response::new().add_attribute("plain", "clear"))
+        }
+
+        #[sv::msg(query)]
+        fn total(&self, ctx: QueryCtx) -> StdResult<u32> {
+            self.total.load(ctx.deps.storage)
+        }
+
+        #[sv::msg(query)]
+        fn total_plus(&self, ctx: QueryCtx, n: u32) -> StdResult<u32> {
+            Ok(self.total.load(ctx.deps.storage)? + n)
+        }
+
+        #[sv::msg(sudo)]
+        fn set(&self, ctx: SudoCtx, to: u32) -> StdResult<Response> {
+            if to == 13 {
+                return Err(StdError::generic_err("unlucky set"));
+            }
+            self.total.save(ctx.deps.storage, &to)?;
+            Ok(Response::new())
+        }
+    }
+}
+
+// ---------------------------------------------------------------------------------------------
 // operation alphabets
 
 fn atom(n: u128) -> Vec<Coin> {
@@ -461,6 +629,36 @@ program!(
     }
 );
 
+fn bag_inst<'p, 'a>(code: &'p bag::sv::mt::CodeId<'a, bag::Bag<u32>, sylvia::cw_multi_test::App>, v: u32) -> bag::sv::mt::InstantiateProxy<'p, 'a, u32, sylvia::cw_multi_test::App> {
+    code.instantiate(v, if v == 99 { 99 } else { v % 3 })
+}
+
+program!(
+    BagProg, "generic bag<u32>", bag::Bag<u32>, crate::history_progs::bag, sylvia::cw_std::StdError,
+    |v: u32| format!("{{\"first\":{},\"copies\":{}}}", v, if v == 99 { 99 } else { v % 3 }),
+    bag_inst,
+    |mi: u8, arg: u32| if mi == 0 { format!("{{\"push\":{{\"item\":{},\"times\":{}}}}}", arg + 100, arg) } else { "{\"clear\":{}}".to_string() },
+    |p: &sylvia::multitest::Proxy<sylvia::cw_multi_test::App, bag::Bag<u32>>, mi: u8, arg: u32, f: &[Coin], s: &Addr| {
+        use bag::sv::mt::BagProxy;
+        if mi == 0 { p.push(arg + 100, arg).with_funds(f).call(s) } else { p.clear().with_funds(f).call(s) }
+    },
+    |mi: u8, arg: u32| if mi == 0 { "{\"len\":{}}".to_string() } else { format!("{{\"count_of\":{{\"item\":{}}}}}", arg) },
+    |p: &sylvia::multitest::Proxy<sylvia::cw_multi_test::App, bag::Bag<u32>>, mi: u8, arg: u32| {
+        use bag::sv::mt::BagProxy;
+        if mi == 0 { p.len() } else { p.count_of(arg) }
+    },
+    |_mi: u8, arg: u32| format!("{{\"truncate\":{{\"to\":{}}}}}", arg),
+    |p: &sylvia::multitest::Proxy<sylvia::cw_multi_test::App, bag::Bag<u32>>, _mi: u8, arg: u32| {
+        use bag::sv::mt::BagProxy;
+        p.truncate(arg)
+    },
+    |arg: u32| format!("{{\"fill\":{}}}", arg),
+    |p: &sylvia::multitest::Proxy<sylvia::cw_multi_test::App, bag::Bag<u32>>, arg: u32, s: &Addr, code: u64| {
+        use bag::sv::mt::BagProxy;
+        p.migrate(arg).call(s, code)
+    }
+);
+
 pub fn all(tier: &str) -> Vec<Box<dyn Program>> {
-    vec![Box::new(CntProg { ops: alphabet(tier) }), Box::new(LedProg { ops: alphabet(tier) })]
+    vec![Box::new(CntProg { ops: alphabet(tier) }), Box::new(LedProg { ops: alphabet(tier) }), Box::new(BagProg { ops: alphabet(tier) })]
 }
